@@ -185,11 +185,14 @@ class MCSimulation:
             np.empty(shape=nb_of_jumps) for nb_of_jumps in all_nb_of_jumps
         ]
         pivot_position = grid.origin_coordinate
+        current_value = 0.0  # the values are the running sums of the jumps over all the intervals
         for k, nb_of_jumps in enumerate(all_nb_of_jumps):
             states_increments = sampling(size=nb_of_jumps)
-            values[k] = np.cumsum(
+            values[k] = current_value + np.cumsum(
                 [grid[pivot_position + increment] for increment in states_increments]
             )
+            if nb_of_jumps:
+                current_value = values[k][-1]
             all_states_increments[k] = states_increments
 
         return values, all_states_increments
@@ -217,6 +220,8 @@ class MCSimulationFixedTimes(MCSimulation, SimulationFixedTimes):
         for k, sliceStates in enumerate(values):
             if sliceStates.shape[0]:
                 definitive_values[k] = sliceStates[-1]
+            elif k > 0:
+                definitive_values[k] = definitive_values[k - 1]  # no jump in this interval
         return definitive_values
 
     def simulate_jumps(self):
